@@ -886,7 +886,8 @@ func (w *tkWorld) outputs() (all []string, toOld []string) {
 	return
 }
 
-// serveOthers: after a teardown about connection k, every other connected peer q sends a read, a write and a
+// serveOthers: after a teardown about connection k, every other connected peer q (after an entity removal also k itself,
+// from its remaining entities) sends a read, a write and a
 // subscription request (as real datagrams through HandleSpineMesssage). Compared with the composed model (drv_tdk `dg`
 // / `call`); SPEC (model-free, distinct device addresses): the read is answered with one reply carrying the value of the
 // last accepted write, the write is accepted iff the OBSERVED bindings hold (server feature <- q's client feature) and
@@ -898,7 +899,9 @@ func (w *tkWorld) serveOthers(r *h.Report, drv func() *h.Driver, mismatch func([
 	typ := dispTypeID[model.FeatureTypeTypeLoadControl]
 	shared := false
 	for q := 1; q <= tkNConn; q++ {
-		if q == k || !w.alive[q] {
+		// every OTHER connected peer — and, after an entity removal, the SAME peer from the entities it still has
+		// ("all and only what refers to that entity": Props.C10Serve.c10s_entity_same_device_served)
+		if !w.alive[q] {
 			continue
 		}
 		var ents []string
